@@ -22,6 +22,7 @@ NUM_OF = z3.Function('num_of', StrS, z3.RealSort())
 IS_NUM_TEXT = z3.Function('is_num_text', StrS, z3.BoolSort())
 IS_ASCII = z3.Function('is_ascii', StrS, z3.BoolSort())
 FMT = {}   # format spec -> UF Int/Real -> String
+REPL = {}  # one-character replacement -> UF String -> String
 
 
 def fmt_fn(spec, sort):
@@ -240,8 +241,10 @@ def _edge_clean(chunks, chars):
     for c in chunks:
         if isinstance(c, str):
             return c[0] not in chars
-        if getattr(c, 'edges_clean', False) and c.nonempty:
-            return True
+        if getattr(c, 'edges_clean', False):
+            if c.nonempty:
+                return True
+            continue      # stripped but possibly empty: clean if non-empty, otherwise the next chunk decides
         if c.may_contain_any(chars):
             return False
         if c.nonempty:
@@ -259,6 +262,9 @@ def strip(ex, p, s, chars=None, left=True, right=True):
             return S(t.strip(arg), s.kind)
         return S(t.lstrip(arg) if left else t.rstrip(arg), s.kind)
     chunks = list(s.chunks)
+    if chars is None and left and right and len(chunks) == 1 and isinstance(chunks[0], Atom) \
+            and chunks[0].origin and chunks[0].origin[0] == 'strip':
+        return s        # strip is idempotent
     if chars is None and left and right:
         # reply lines produced by the port model are pre-classified: a blank line (only whitespace) or a
         # text line that carries its own stripped core
@@ -354,6 +360,9 @@ def replace(ex, p, s, old, new):
     o, n = old.lit(), new.lit()
     if s.is_lit():
         return S(s.lit().replace(o, n), s.kind)
+    if len(o) != 1:
+        # only a one-character pattern acts chunk by chunk (monoid homomorphism); longer ones could span chunks
+        raise EngineError('str.replace with a multi-character pattern on symbolic text is not modelled')
     out = []
     for c in s.chunks:
         if isinstance(c, str):
@@ -361,11 +370,17 @@ def replace(ex, p, s, old, new):
         elif not c.may_contain_any(o):
             out.append(c)
         else:
-            raise EngineError('replace on an atom that may contain the pattern')
-    if len(o) > 1:
-        sk = _skeletons(s)
-        if sk is None or any(o in x for x in sk if o not in x.replace('\x00', '\x00\x00')):
-            pass
+            # uninterpreted image of the atom under the one-character replacement (axiom: replace distributes over
+            # concatenation for a one-character pattern, so it can be applied to each chunk separately)
+            key = f'replace[{o!r}->{n!r}]'
+            fn = REPL.setdefault(key, z3.Function(key, StrS, StrS))
+            excl = set(c.excl) - set(n)
+            if o not in n:
+                excl.add(o)
+            a = Atom(fn(c.term), incl=None if c.incl is None else frozenset((set(c.incl) - {o}) | set(n)), excl=frozenset(excl),
+                     origin=('replace', o, n, c))
+            ex.ctx.assume_note('str.replace(c, s) with a one-character pattern c is a monoid homomorphism (acts chunk by chunk)')
+            out.append(a)
     return VStr(out, s.kind)
 
 
